@@ -53,6 +53,8 @@ pub(crate) fn run_scheduling_inner(
     now: Instant,
 ) -> SchedulerResult {
     let batches = create_task_batches(core, now, None);
+    #[cfg(it4innovations_hyperqueue_verif)]
+    crate::verif::sched_c15::on_batches(&batches);
     let solution = run_scheduling_solver(core, now, &batches, None);
     let need_more_compute = if !solution.is_optimal {
         if solution.is_empty() {
